@@ -53,6 +53,28 @@ def check_list_discipline(chk, prog, eff):
             chk.add(Finding('C16.list-discipline', UNIT, fn, 'insert[%s]' % nm,
                             '%s links an item with %s: items must be appended with list_add_tail(&item->node, &set->head) (document order)'
                             % (fn, nm), line=node.get('_l')))
+    if ins and not unl:
+        # items are linked but nothing unlinks them: is an item released all the same?
+        root = eff.find('jwks_item_free', UNIT)
+        seen, parent = eff.reachable([root]) if root else (set(), {})
+        for k in sorted(seen, key=repr):
+            info = eff.funcs.get(k)
+            if info is None or k[0] != UNIT:
+                continue
+            for tgt, node in info['callsites']:
+                if tgt[1] in ('jwt_freemem', '__jwt_freemem', 'free') and len(node.get('inner', ())) > 1:
+                    a = _strip(node['inner'][1])
+                    qt = a.get('type', {}).get('qualType', '')
+                    if 'jwk_item' in qt and '*' in qt and a.get('kind') == 'DeclRefExpr':
+                        n += 1
+                        bad += 1
+                        chk.add(Finding('C16.list-discipline', UNIT, k[1], 'release-without-unlink',
+                                        '%s releases an item (%s) but no function of jwks.c unlinks items from the set: the list keeps a '
+                                        'pointer to released storage' % (k[1], qt), line=node.get('_l')))
+        if bad:
+            chk.rule('C16.list-discipline', 'items are linked only by list_add_tail(&item->node, &set->head); unlinked by list_del in one '
+                                            'destructor; no freeing inside a non-safe iteration', n, bad, floor=1)
+            return None
     if not ins or not unl:
         raise AnalysisBroken('list insert/unlink call sites not found in jwks.c')
     destructors = sorted(set(fn for fn, nm, node in unl))
@@ -295,16 +317,104 @@ def check_lookups(chk, prog, env, model, dtor='__item_free'):
              n, bad, floor=4)
 
 
+WIDE = ('size_t', 'unsigned long', 'long', 'unsigned long long', 'long long', 'uint64_t', 'int64_t', 'ssize_t', 'uintptr_t', 'intptr_t')
+
+
+def _is_wide(t):
+    q = (t or {}).get('desugaredQualType') or (t or {}).get('qualType') or ''
+    q = q.replace('const ', '').strip()
+    return q in WIDE
+
+
+def check_index_walk(chk, prog):
+    """jwks_item_get(set, i) / jwks_item_free(set, i): the i-th item of a forward walk.  Decided structurally: the index argument is never
+    narrowed, the position counter starts at 0 and is stepped by exactly one at the end of every iteration that does not select"""
+    from interp import Unsupported
+    u = prog.unit(UNIT)
+    n = 0
+    bad = 0
+    for fname, f in sorted(u.funcs.items()):
+        params = [p for p in f.get('inner', ()) if isinstance(p, dict) and p.get('kind') == 'ParmVarDecl']
+        ip = [p for p in params if _is_wide(p.get('type')) or (p.get('type', {}).get('qualType', '') in ('int', 'unsigned int', 'const int', 'const unsigned int'))]
+        sp = [p for p in params if 'jwk_set' in p.get('type', {}).get('qualType', '')]
+        if len(ip) != 1 or not sp or f.get('storageClass') == 'static':
+            continue
+        idx = ip[0]
+        loops = [x for x in walk(f) if x.get('kind') == 'ForStmt' and x.get('_mac') in ('list_for_each_entry', 'list_for_each_entry_safe')]
+        if not loops:
+            continue
+        n += 1
+        if not _is_wide(idx.get('type')):
+            bad += 1
+            chk.add(Finding('C16.index-walk', UNIT, fname, 'index-narrow', 'the index parameter has type %s' % idx['type'].get('qualType')))
+        # (a) no narrowing conversion of an expression that mentions the index parameter
+        for x in walk(f):
+            if x.get('kind') in ('CStyleCastExpr', 'ImplicitCastExpr') and x.get('castKind') == 'IntegralCast' and not _is_wide(x.get('type')):
+                if any(y.get('kind') == 'DeclRefExpr' and y.get('referencedDecl', {}).get('id') == idx.get('id') for y in walk(x)):
+                    bad += 1
+                    chk.add(Finding('C16.index-walk', UNIT, fname, 'index-truncated',
+                                    'the index argument is converted to %s before it is compared: indices beyond that type alias into range'
+                                    % x['type'].get('qualType'), line=x.get('_l')))
+        # (b) the counter compared with the index
+        loop = loops[0]
+        body = loop['inner'][-1]
+        cmps = []
+        for x in walk(body):
+            if x.get('kind') == 'BinaryOperator' and x.get('opcode') in ('==', '>=', '<=', '!=', '<', '>'):
+                l, r = _strip(x['inner'][0]), _strip(x['inner'][1])
+                for a, b in ((l, r), (r, l)):
+                    if a.get('kind') == 'DeclRefExpr' and a['referencedDecl'].get('id') == idx.get('id') and b.get('kind') == 'DeclRefExpr':
+                        cmps.append((x, b))
+        if len(cmps) != 1:
+            raise Unsupported('%s: the walk does not compare a position counter with the index in a recognised way' % fname)
+        cmpn, ctr = cmps[0]
+        cid = ctr['referencedDecl']['id']
+        decl = [x for x in walk(f) if x.get('kind') == 'VarDecl' and x.get('id') == cid]
+        init = _strip(decl[0]['inner'][0]) if decl and decl[0].get('inner') else {}
+        if cmpn.get('opcode') not in ('==', '>='):
+            bad += 1
+            chk.add(Finding('C16.index-walk', UNIT, fname, 'select[%s]' % cmpn.get('opcode'),
+                            'an item is selected when counter %s index' % cmpn.get('opcode'), line=cmpn.get('_l')))
+        if not (init.get('kind') == 'IntegerLiteral' and init.get('value') == '0'):
+            bad += 1
+            chk.add(Finding('C16.index-walk', UNIT, fname, 'counter-start', 'the position counter does not start at 0', line=(decl[0] if decl else f).get('_l')))
+        steps = []
+        for x in walk(f):
+            if x.get('kind') == 'UnaryOperator' and x.get('opcode') in ('++', '--') and _strip(x['inner'][0]).get('referencedDecl', {}).get('id') == cid:
+                steps.append(('++' if x['opcode'] == '++' else 'bad', x))
+            if x.get('kind') in ('CompoundAssignOperator', 'BinaryOperator') and x.get('opcode') in ('+=', '-=', '=', '*=') \
+                    and _strip(x['inner'][0]).get('referencedDecl', {}).get('id') == cid:
+                rhs = _strip(x['inner'][1])
+                steps.append(('++' if x['opcode'] == '+=' and rhs.get('kind') == 'IntegerLiteral' and rhs.get('value') == '1' else 'bad', x))
+        top = body.get('inner', []) if body.get('kind') == 'CompoundStmt' else [body]
+        inc_top = [t for t in top if steps and (t is steps[0][1] or _strip(t) is steps[0][1])]
+        cont = [x for x in walk(body) if x.get('kind') == 'ContinueStmt']
+        if len(steps) != 1 or steps[0][0] != '++':
+            bad += 1
+            chk.add(Finding('C16.index-walk', UNIT, fname, 'counter-step', 'the position counter is not stepped by exactly one, once per iteration',
+                            line=(steps[0][1] if steps else loop).get('_l')))
+        elif not inc_top or top.index(inc_top[0]) != len(top) - 1 or cont:
+            bad += 1
+            chk.add(Finding('C16.index-walk', UNIT, fname, 'counter-skipped',
+                            'the step of the position counter is not the unconditional last statement of the iteration', line=steps[0][1].get('_l')))
+    chk.rule('C16.index-walk', 'index lookups: the index is never narrowed, the counter starts at 0 and is stepped by one at the end of each '
+                               'non-selecting iteration of a forward walk', n, bad, floor=2)
+
+
 def run(chk, prog, tier):
     env = Env(prog)
     model = build_model()
     eff = effects.Effects(prog)
     dtor = check_list_discipline(chk, prog, eff)
+    if dtor is None:
+        return chk.finish('Structural clauses of the keyring (stopped at the list discipline: no unlink site).',
+                          ['clang 14 front end', 'lib/effects.py'])
     chk.guard('destructor', check_destructor, chk, prog, env, model, dtor)
     chk.guard('free_bad counter', check_counters, chk, prog, env, model, dtor)
     chk.guard('lookups', check_lookups, chk, prog, env, model, dtor)
-    chk.assumptions += ['list semantics under arbitrary operation sequences, index arithmetic of jwks_item_get / jwks_item_free(i) over the walk and the '
-                        'heap-shape invariants of ll.h are NOT decided (loops over runtime data)']
+    chk.guard('index walk', check_index_walk, chk, prog)
+    chk.assumptions += ['list semantics under arbitrary operation sequences and the heap-shape invariants of ll.h are NOT decided (loops over '
+                        'runtime data); the index walk is decided as a per-iteration shape (start 0, step 1, full-width compare), not by induction']
     return chk.finish(
         'Structural clauses of the keyring.',
         ['clang 14 front end', 'lib/interp.py', 'lib/effects.py', 'lib/model.py (allocator families)'],
